@@ -3,12 +3,16 @@
    proved in Proofs/C03.v and followed by Print Assumptions.
 
    [update/run ... HEAD] is Filter.update as it is in /repo (with the repairs
-   1ad19c0, 2db14c2, 1895a86 = fixes_proposed/C03-removed-range-keys,
-   -valueerror-before-mutation, -range-on-late-feature and
-   C03-limit-overflow). [hashf] (PolygonFilter.hash of a filter) and [choice]
+   1ad19c0, 2db14c2, 1895a86, 842d5c2 and
+   fixes_proposed/C03-failed-update-resets-caches.diff). [hashf] (PolygonFilter.hash of a filter) and [choice]
    (the seeded np.random.choice behind "limit events") are oracles: their
    hypotheses are explicit and are checked on the implementation by
-   harness/c03.py. [known] are the feature names dclab knows.
+   harness/c03.py. [kn w] are the feature names dclab knows (deregistering a temporary
+   feature removes its name), [have w] the features rtdc_ds[f] has data for,
+   [vax] the axes of the polygon vertex sets. The classification [pin] of a
+   vertex set is fixed data of the case: the DATA of a polygon axis are never
+   replaced (ReplaceTemp concerns box ranges; a polygon mask on replaced data
+   stays stale even with force: outside the property's operations).
    [err w' = false]: the application did not raise ValueError
    (C03_apply_raises_iff says exactly when it does).
    [stale w' = []]: GHOST condition (Model/C03.v, world): no feature whose DATA
@@ -19,9 +23,9 @@
    (no_replace), after a replacement it is re-established by
    apply_filter(force=[feature]) (C03_force_refreshes).
 
-   The three *_refuted theorems at the end are about EARLIER versions of
-   Filter.update (V0, V1, V2) that no longer exist in /repo: they document the
-   three repaired defects (DESIGN.md section 10) and are tied to no code. *)
+   The four *_refuted theorems at the end are about EARLIER versions of
+   Filter.update (V0, V1, V2, V3) that no longer exist in /repo: they document
+   the repaired defects (DESIGN.md section 10) and are tied to no code. *)
 From Coq Require Import ZArith List Bool.
 From Verif Require Import Model.C03 Proofs.C03.
 Import ListNotations.
@@ -34,12 +38,13 @@ Open Scope Z_scope.
    arrays equal to the stateless specification of the current settings. *)
 Theorem C03_filter_history :
   forall (hashf : Z -> Z -> bool -> Z) (choice : Z -> Z -> list Z)
-         (rows : list row) (known : list Z),
+         (rows : list row) (vax : list (Z * list Z)),
     (forall id v b v' b', hashf id v b = hashf id v' b' -> v = v' /\ b = b') ->
-    forall (reg0 : registry) (feats0 : list Z) (ops : list op) (force : list Z),
+    forall (reg0 : registry) (feats0 known0 : list Z) (ops : list op) (force : list Z),
+      (forall f, In f feats0 -> In f known0) ->
       no_replace ops = true ->
-      let w := run hashf choice rows known HEAD (init_world rows reg0 feats0) ops in
-      let w' := update hashf choice rows known HEAD w force in
+      let w := run hashf choice rows vax HEAD (init_world rows reg0 feats0 known0) ops in
+      let w' := update hashf choice rows vax HEAD w force in
       err w' = false ->
       a_all (flt w') = spec_all choice rows w /\
       a_box (flt w') = spec_box rows w /\
@@ -52,11 +57,12 @@ Print Assumptions C03_filter_history.
    feature still has its old box filter. *)
 Theorem C03_filter_history_with_data_replacement :
   forall (hashf : Z -> Z -> bool -> Z) (choice : Z -> Z -> list Z)
-         (rows : list row) (known : list Z),
+         (rows : list row) (vax : list (Z * list Z)),
     (forall id v b v' b', hashf id v b = hashf id v' b' -> v = v' /\ b = b') ->
-    forall (reg0 : registry) (feats0 : list Z) (ops : list op) (force : list Z),
-      let w := run hashf choice rows known HEAD (init_world rows reg0 feats0) ops in
-      let w' := update hashf choice rows known HEAD w force in
+    forall (reg0 : registry) (feats0 known0 : list Z) (ops : list op) (force : list Z),
+      (forall f, In f feats0 -> In f known0) ->
+      let w := run hashf choice rows vax HEAD (init_world rows reg0 feats0 known0) ops in
+      let w' := update hashf choice rows vax HEAD w force in
       err w' = false -> stale w' = [] ->
       a_all (flt w') = spec_all choice rows w /\
       a_box (flt w') = spec_box rows w /\
@@ -68,25 +74,28 @@ Print Assumptions C03_filter_history_with_data_replacement.
 (* apply_filter(force=...) naming every replaced feature makes the guard true. *)
 Theorem C03_force_refreshes :
   forall (hashf : Z -> Z -> bool -> Z) (choice : Z -> Z -> list Z)
-         (rows : list row) (known : list Z) (w : world) (force : list Z),
+         (rows : list row) (vax : list (Z * list Z)) (w : world) (force : list Z),
     (forall f, In f (stale w) -> In f force) ->
-    err (update hashf choice rows known HEAD w force) = false ->
-    stale (update hashf choice rows known HEAD w force) = [].
+    stale (update hashf choice rows vax HEAD w force) = [].
 Proof. exact forced_not_stale. Qed.
 Print Assumptions C03_force_refreshes.
 
-(* An application raises exactly when `force` names an unknown feature or the
-   current settings hold a range with only one of its two keys, whatever
+(* An application raises exactly when `force` names an unknown feature, a
+   KNOWN feature has a range with only one of its two keys (a deregistered
+   temporary feature is unknown: its keys are ignored), or a registered polygon
+   filter has no instance or an axis the dataset has no data for — whatever
    happened before (in particular never because of the event limit). *)
 Theorem C03_apply_raises_iff :
   forall (hashf : Z -> Z -> bool -> Z) (choice : Z -> Z -> list Z)
-         (rows : list row) (known : list Z),
+         (rows : list row) (vax : list (Z * list Z)),
     (forall id v b v' b', hashf id v b = hashf id v' b' -> v = v' /\ b = b') ->
-    forall (reg0 : registry) (feats0 : list Z) (ops : list op) (force : list Z),
-      let w := run hashf choice rows known HEAD (init_world rows reg0 feats0) ops in
-      err (update hashf choice rows known HEAD w force) = true
-      <-> (exists f, In f force /\ ~ In f known)
-          \/ exists f, half_set (rng (cfg w)) f = true.
+    forall (reg0 : registry) (feats0 known0 : list Z) (ops : list op) (force : list Z),
+      (forall f, In f feats0 -> In f known0) ->
+      let w := run hashf choice rows vax HEAD (init_world rows reg0 feats0 known0) ops in
+      err (update hashf choice rows vax HEAD w force) = true
+      <-> (exists f, In f force /\ ~ In f (kn w))
+          \/ (exists f, In f (kn w) /\ half_set (rng (cfg w)) f = true)
+          \/ poly_bad vax (reg w) (have w) (polys (cfg w)) = true.
 Proof. exact history_raises. Qed.
 Print Assumptions C03_apply_raises_iff.
 
@@ -95,14 +104,15 @@ Print Assumptions C03_apply_raises_iff.
    them qualifies. *)
 Theorem C03_limit_exact :
   forall (hashf : Z -> Z -> bool -> Z) (choice : Z -> Z -> list Z)
-         (rows : list row) (known : list Z),
+         (rows : list row) (vax : list (Z * list Z)),
     (forall id v b v' b', hashf id v b = hashf id v' b' -> v = v' /\ b = b') ->
-    forall (reg0 : registry) (feats0 : list Z) (ops : list op) (force : list Z),
+    forall (reg0 : registry) (feats0 known0 : list Z) (ops : list op) (force : list Z),
+      (forall f, In f feats0 -> In f known0) ->
       (forall m k, 0 < k < m ->
          NoDup (choice m k) /\ Z.of_nat (length (choice m k)) = k /\
          Forall (fun i => 0 <= i < m) (choice m k)) ->
-      let w := run hashf choice rows known HEAD (init_world rows reg0 feats0) ops in
-      let w' := update hashf choice rows known HEAD w force in
+      let w := run hashf choice rows vax HEAD (init_world rows reg0 feats0 known0) ops in
+      let w' := update hashf choice rows vax HEAD w force in
       err w' = false -> stale w' = [] ->
       enable (cfg w) = true -> 0 < limit (cfg w) ->
       count_true (a_all (flt w'))
@@ -115,14 +125,15 @@ Print Assumptions C03_limit_exact.
 (* Without a limit the selection is exactly the set of qualifying events. *)
 Theorem C03_no_limit_all_qualifying :
   forall (hashf : Z -> Z -> bool -> Z) (choice : Z -> Z -> list Z)
-         (rows : list row) (known : list Z),
+         (rows : list row) (vax : list (Z * list Z)),
     (forall id v b v' b', hashf id v b = hashf id v' b' -> v = v' /\ b = b') ->
-    forall (reg0 : registry) (feats0 : list Z) (ops : list op) (force : list Z),
-      let w := run hashf choice rows known HEAD (init_world rows reg0 feats0) ops in
-      err (update hashf choice rows known HEAD w force) = false ->
-      stale (update hashf choice rows known HEAD w force) = [] ->
+    forall (reg0 : registry) (feats0 known0 : list Z) (ops : list op) (force : list Z),
+      (forall f, In f feats0 -> In f known0) ->
+      let w := run hashf choice rows vax HEAD (init_world rows reg0 feats0 known0) ops in
+      err (update hashf choice rows vax HEAD w force) = false ->
+      stale (update hashf choice rows vax HEAD w force) = [] ->
       enable (cfg w) = true -> limit (cfg w) <= 0 ->
-      a_all (flt (update hashf choice rows known HEAD w force))
+      a_all (flt (update hashf choice rows vax HEAD w force))
       = spec_qual rows w.
 Proof. exact history_no_limit. Qed.
 Print Assumptions C03_no_limit_all_qualifying.
@@ -130,12 +141,12 @@ Print Assumptions C03_no_limit_all_qualifying.
 (* With filters disabled every event is selected (also with stale features). *)
 Theorem C03_disabled_selects_all :
   forall (hashf : Z -> Z -> bool -> Z) (choice : Z -> Z -> list Z)
-         (rows : list row) (known : list Z),
-    forall (reg0 : registry) (feats0 : list Z) (ops : list op) (force : list Z),
-      let w := run hashf choice rows known HEAD (init_world rows reg0 feats0) ops in
-      err (update hashf choice rows known HEAD w force) = false ->
+         (rows : list row) (vax : list (Z * list Z)),
+    forall (reg0 : registry) (feats0 known0 : list Z) (ops : list op) (force : list Z),
+      let w := run hashf choice rows vax HEAD (init_world rows reg0 feats0 known0) ops in
+      err (update hashf choice rows vax HEAD w force) = false ->
       enable (cfg w) = false ->
-      a_all (flt (update hashf choice rows known HEAD w force))
+      a_all (flt (update hashf choice rows vax HEAD w force))
       = map (fun _ => true) rows.
 Proof. exact history_disabled. Qed.
 Print Assumptions C03_disabled_selects_all.
@@ -146,20 +157,21 @@ Print Assumptions C03_disabled_selects_all.
    checks it on the implementation.) *)
 Theorem C03_selection_depends_on_settings_only :
   forall (hashf : Z -> Z -> bool -> Z) (choice : Z -> Z -> list Z)
-         (rows : list row) (known : list Z),
+         (rows : list row) (vax : list (Z * list Z)),
     (forall id v b v' b', hashf id v b = hashf id v' b' -> v = v' /\ b = b') ->
-    forall (reg1 : registry) (feats1 : list Z) (ops1 : list op) (force1 : list Z)
-           (reg2 : registry) (feats2 : list Z) (ops2 : list op) (force2 : list Z),
-      let w1 := run hashf choice rows known HEAD (init_world rows reg1 feats1) ops1 in
-      let w2 := run hashf choice rows known HEAD (init_world rows reg2 feats2) ops2 in
+    forall (reg1 : registry) (feats1 known1 : list Z) (ops1 : list op) (force1 : list Z)
+           (reg2 : registry) (feats2 known2 : list Z) (ops2 : list op) (force2 : list Z),
+      (forall f, In f feats1 -> In f known1) -> (forall f, In f feats2 -> In f known2) ->
+      let w1 := run hashf choice rows vax HEAD (init_world rows reg1 feats1 known1) ops1 in
+      let w2 := run hashf choice rows vax HEAD (init_world rows reg2 feats2 known2) ops2 in
       cfg w1 = cfg w2 -> reg w1 = reg w2 -> manual (flt w1) = manual (flt w2) ->
       feats w1 = feats w2 -> fcol w1 = fcol w2 ->
-      err (update hashf choice rows known HEAD w1 force1) = false ->
-      err (update hashf choice rows known HEAD w2 force2) = false ->
-      stale (update hashf choice rows known HEAD w1 force1) = [] ->
-      stale (update hashf choice rows known HEAD w2 force2) = [] ->
-      a_all (flt (update hashf choice rows known HEAD w1 force1))
-      = a_all (flt (update hashf choice rows known HEAD w2 force2)).
+      err (update hashf choice rows vax HEAD w1 force1) = false ->
+      err (update hashf choice rows vax HEAD w2 force2) = false ->
+      stale (update hashf choice rows vax HEAD w1 force1) = [] ->
+      stale (update hashf choice rows vax HEAD w2 force2) = [] ->
+      a_all (flt (update hashf choice rows vax HEAD w1 force1))
+      = a_all (flt (update hashf choice rows vax HEAD w2 force2)).
 Proof. exact history_reproducible. Qed.
 Print Assumptions C03_selection_depends_on_settings_only.
 
@@ -191,8 +203,8 @@ Print Assumptions C03_spec_range_semantics.
    above is known to be necessary. *)
 Theorem C03_replaced_data_unforced_stale :
   forall (hashf : Z -> Z -> bool -> Z) (choice : Z -> Z -> list Z),
-    let w := run hashf choice repl_rows [0; 1] HEAD (init_world repl_rows [] [0]) repl_ops in
-    let w' := update hashf choice repl_rows [0; 1] HEAD w [] in
+    let w := run hashf choice repl_rows [] HEAD (init_world repl_rows [] [0] [0; 1]) repl_ops in
+    let w' := update hashf choice repl_rows [] HEAD w [] in
     err w' = false /\ stale w' = [1] /\ a_all (flt w') <> spec_all choice repl_rows w.
 Proof. exact replaced_data_unforced_stale. Qed.
 Print Assumptions C03_replaced_data_unforced_stale.
@@ -204,9 +216,9 @@ Print Assumptions C03_replaced_data_unforced_stale.
    keeps the old box filter. *)
 Theorem C03_filter_history_unrepaired_refuted :
   forall (hashf : Z -> Z -> bool -> Z) (choice : Z -> Z -> list Z),
-    let w := run hashf choice refute_rows [0; 1] V0
-                 (init_world refute_rows [] [0]) refute_ops in
-    let w' := update hashf choice refute_rows [0; 1] V0 w [] in
+    let w := run hashf choice refute_rows [] V0
+                 (init_world refute_rows [] [0] [0; 1]) refute_ops in
+    let w' := update hashf choice refute_rows [] V0 w [] in
     err w' = false /\ a_all (flt w') <> spec_all choice refute_rows w.
 Proof. exact unrepaired_refuted. Qed.
 Print Assumptions C03_filter_history_unrepaired_refuted.
@@ -217,8 +229,8 @@ Print Assumptions C03_filter_history_unrepaired_refuted.
    restored and the lone key removed: the [3,4] mask stays. *)
 Theorem C03_filter_history_sequential_raise_refuted :
   forall (hashf : Z -> Z -> bool -> Z) (choice : Z -> Z -> list Z),
-    let w := run hashf choice exc_rows [0; 1] V1 (init_world exc_rows [] [0; 1]) exc_ops in
-    let w' := update hashf choice exc_rows [0; 1] V1 w [] in
+    let w := run hashf choice exc_rows [] V1 (init_world exc_rows [] [0; 1] [0; 1]) exc_ops in
+    let w' := update hashf choice exc_rows [] V1 w [] in
     err w' = false /\ a_all (flt w') <> spec_all choice exc_rows w.
 Proof. exact sequential_raise_refuted. Qed.
 Print Assumptions C03_filter_history_sequential_raise_refuted.
@@ -227,8 +239,23 @@ Print Assumptions C03_filter_history_sequential_raise_refuted.
    (temporary) feature exists is not applied once the feature exists. *)
 Theorem C03_filter_history_late_feature_refuted :
   forall (hashf : Z -> Z -> bool -> Z) (choice : Z -> Z -> list Z),
-    let w := run hashf choice exc_rows [0; 1] V2 (init_world exc_rows [] [0]) late_ops in
-    let w' := update hashf choice exc_rows [0; 1] V2 w [] in
+    let w := run hashf choice exc_rows [] V2 (init_world exc_rows [] [0] [0; 1]) late_ops in
+    let w' := update hashf choice exc_rows [] V2 w [] in
     err w' = false /\ a_all (flt w') <> spec_all choice exc_rows w.
 Proof. exact late_feature_refuted. Qed.
 Print Assumptions C03_filter_history_late_feature_refuted.
+
+(* Before fixes_proposed/C03-failed-update-resets-caches.diff (a failed update
+   left recomputed masks behind): range [1,2] applied; range [3,4] plus a
+   polygon id without instance: KeyError after the box filter was recomputed;
+   the id is removed and [1,2] restored: the [3,4] mask stays. *)
+Theorem C03_filter_history_polygon_keyerror_refuted :
+  forall (hashf : Z -> Z -> bool -> Z) (choice : Z -> Z -> list Z),
+    let w1 := run hashf choice exc_rows [] V3 (init_world exc_rows [] [0; 1] [0; 1])
+                  (firstn 7 keyerr_ops) in
+    let w := run hashf choice exc_rows [] V3 (init_world exc_rows [] [0; 1] [0; 1])
+                 keyerr_ops in
+    let w' := update hashf choice exc_rows [] V3 w [] in
+    err w1 = true /\ err w' = false /\ a_all (flt w') <> spec_all choice exc_rows w.
+Proof. exact polygon_keyerror_refuted. Qed.
+Print Assumptions C03_filter_history_polygon_keyerror_refuted.
